@@ -56,6 +56,19 @@ def _swap(path, kind):
             f.write(b"now a regular file\n")
 
 
+def _race(path, kind):
+    if kind == "race_rm":                        # unlinked while open: this request still reads the old content
+        os.remove(path)
+    elif kind == "race_dir":
+        os.remove(path)
+        os.makedirs(path)
+    else:                                        # race_rw: a new file is renamed into place
+        tmp = path + ".new"
+        with _builtin_open(tmp, "wb") as f:
+            f.write(HIST_CONTENT["W2"].encode())
+        os.replace(tmp, path)
+
+
 def _faulty_open(file, *args, **kwargs):
     f = _FAULT["armed"]
     if f is not None and isinstance(file, (str, bytes)) and os.path.abspath(os.fsdecode(file)) == f["path"]:
@@ -68,6 +81,13 @@ def _faulty_open(file, *args, **kwargs):
             raise OSError(e, os.strerror(e), os.fsdecode(file))
         was_on, _REC["on"] = _REC["on"], False      # the harness's own file operations are not the handler's
         try:
+            if f["kind"].startswith("race_"):
+                # the change happens right AFTER this open() succeeded, i.e. between two OS calls of one request
+                _REC["on"] = was_on
+                fobj = _builtin_open(file, *args, **kwargs)
+                _REC["on"] = False
+                _race(f["path"], f["kind"])
+                return fobj
             _swap(f["path"], f["kind"])
         finally:
             _REC["on"] = was_on
@@ -101,6 +121,7 @@ TREE = {
     "root/%2e%2e": "root/%2e%2e literal\n",
     "root/f.txt?x": "root/f.txt?x (named by f.txt%3fx)\n",
     "root/a?": "root/a? (named by a%3f)\n",
+    "root/a%20b": "root/a%20b (named by a%2520b; a%20b names 'a b')\n",
     # falsy-but-valid / sentinel-like / non-ASCII names and contents
     "root/empty": "",
     "root/empty.j2": "",
@@ -165,7 +186,7 @@ def mkcfg(rpath, filemode, template, suffix="", key="", ph=None, target_raw=None
 
 # root_dir / file configured relative to the working directory, with a trailing slash, or (file) non-normalised,
 # missing, a directory, below a regular file.  The handler gets the string verbatim; the model gets its abspath.
-RAW_ROOTS = ["root", "root/", "$BASE/root/"]
+RAW_ROOTS = ["root", "root/", "$BASE/root/", "$BASE/rootlink", "linkdir/root"]     # the last two: symbolic links
 RAW_FILES = ["rootfile.txt", "./rootfile.txt", "$BASE/root/../rootfile.txt", "nothere.txt", "$BASE/root/../nothere.txt",
              "$BASE/rootfile.txt/below", "root", "root/a/../f.txt"]
 # root_dir spellings for which the unchanged code serves nothing at all (see docs/C04.md, "Found about the real
@@ -231,6 +252,9 @@ class C04(Check):
         for rel, content in TREE.items():
             fileh.write_file(rel, content)
         os.chdir(fileh.base_dir())       # relative root_dir / file options are relative to this directory
+        for link, target in (("rootlink", "root"), ("linkdir", ".")):
+            if not os.path.lexists(link):
+                os.symlink(target, link)
         # warm up lazily imported modules so that their files are not counted as opened by a request
         for cfg in (mkcfg("/", False, True), mkcfg("/", False, False)):
             for tftp in (False, True):
@@ -302,6 +326,52 @@ class C04(Check):
                 seq = [rng.choice(toks) for _ in range(rng.randrange(3, 7))]
                 yield {"tftp": bool(rng.randrange(2)), "cfg": vcfg, "uri": ruri, "hist": [o for t in seq for o in t] + ["R"],
                        "hfile": hfile, "cache": False}
+        # a change between two OS calls of ONE request (right after its open() succeeded), template cache enabled:
+        # this request may still answer with the old file; every later one must see the file system as it is
+        rtoks = [["R"], ["A"], ["W1"], ["X:race_rm", "R"], ["X:race_rw", "R"], ["X:race_dir", "R"]]
+        k = 0
+        for n in range(1, 4):
+            for seq in itertools.product(rtoks, repeat=n):
+                ops = [o for t in seq for o in t]
+                if not any(o.startswith("X:") for o in ops):
+                    continue
+                k += 1
+                for cache in ((True,) if (k % 3 or tier == "quick") else (True, False)):
+                    hcfg = dict(mkcfg("/", False, True, ""), target="hroot")
+                    yield {"tftp": bool(k % 2), "cfg": hcfg, "uri": "/f.txt", "hist": ops + ["R", "R"], "cache": cache}
+        for k, seq in enumerate(itertools.product(rtoks[3:], repeat=1)):
+            hcfg = dict(mkcfg("/", False, False, ""), target="hroot")
+            yield {"tftp": bool(k % 2), "cfg": hcfg, "uri": "/f.txt", "hist": list(seq[0]) + ["R"], "cache": False}
+        # root_dir is a symbolic link that is re-pointed (op L) while the handler lives
+        ltoks = [["R"], ["G"], ["L"], ["W1"], ["A"]]
+        k = 0
+        for template, cache in ((False, False), (True, True), (True, False)):
+            for n in range(1, 4):
+                for seq in itertools.product(ltoks, repeat=n):
+                    ops = [o for t in seq for o in t]
+                    if "L" not in ops:
+                        continue
+                    k += 1
+                    lcfg = dict(mkcfg("/", False, template, ""), target="hlink", target_raw="$BASE/hlink")
+                    yield {"tftp": bool(k % 2), "cfg": lcfg, "uri": "/f.txt", "hist": ops + ["R", "G"], "cache": cache,
+                           "link": True}
+        # a sample of requests through the real HttpServer / TftpServer in front of the handler
+        wit = ["/f.txt", "/nope", "/a", "/a/f.txt", "/a/../f.txt", "/%2541", "/%41", "/a%2520b", "/a%20b", "/f.txt%3fx",
+               "/f.txt%3Fx?y", "/f.txt?x", "/%2e%2e/secret.txt", "/..%2fsecret.txt", "/%252e%252e/secret.txt", "/f.txt/a",
+               "//f.txt", "/a//f.txt", "/%c3%a9", "/\xe9", "/f.txt%00", "/f.txt%2500", "/[x", "//[x", "/x%0Ay", "/empty",
+               "/" + "n" * 100, "/f.txt?" + "q" * 300, "/%66%2e%74%78%74", "/a%5cf.txt", "/a\\f.txt", "/%25", "/%", "/%2"]
+        scfgs = [mkcfg("/", False, False, ""), mkcfg("/", False, True, ""), mkcfg("/p", False, False, ".j2"),
+                 mkcfg("/p", True, True), mkcfg("/p/...", False, True, ".j2", key=":system_id:")]
+        two = list(fileh.tokens_upto(ALPHABET, 2))
+        for si, cfg in enumerate(scfgs):
+            for tftp in (False, True):
+                seen = set()
+                for pre in prefixes(cfg):
+                    for u in [pre + w for w in wit] + ([pre + t for t in two] if si < 2 else []) + ["/", pre, "/x"]:
+                        for w in ((u,) if not tftp else (u, u[1:])):
+                            if w and w not in seen and fileh.servable(tftp, w):
+                                seen.add(w)
+                                yield {"tftp": tftp, "cfg": cfg, "uri": fileh.wire_to_handler(tftp, w), "wire": w, "via_server": True}
         # every character in every position, and legal requests at and beyond every natural limit
         for cfg in (mkcfg("/", False, False, ""), mkcfg("/", False, True, ""), mkcfg("/p", False, False, ".j2"),
                     mkcfg("/p", True, True)):
@@ -344,6 +414,8 @@ class C04(Check):
             n = n_all if (main and not cfg["suffix"] and (tier == "quick" or not cfg["template"])) else n_all - 1
             if cfg.get("target_raw") not in (None, "root") and tier != "quick":
                 n = n_all - 2
+            if cfg.get("target_raw") not in (None, "root", "$BASE/rootlink") and tier == "quick":
+                n = 1             # witnesses, one-token requests, random ones
             if tier != "quick" and not main and cfg["template"] and cfg["rpath"] != "/" and cfg.get("target_raw") is None:
                 n = n_all - 2     # the non-template twin of this configuration keeps the larger scope
             strings_all = list(fileh.tokens_upto(ALPHABET, n))
@@ -408,19 +480,32 @@ class C04(Check):
         h = self.handler(cfg, tftp)
         if h is None:
             return [False, False, [], 4, b""]
-        return self.run_request(h, cfg, tftp, uri)
+        return self.run_request(h, cfg, tftp, uri, via_server=bool(c.get("via_server")), wire=c.get("wire"))
 
-    def run_request(self, h, cfg, tftp, uri):
-        ctx = h.prepare_context(uri)
-        can = bool(h.can_handle(uri, ctx))
-        if not can:
-            return [True, False, [], 4, b""]
-        _REC["paths"] = []
-        _REC["on"] = True
-        try:
-            cls, body = fileh.run_handle(h, tftp, uri, ctx)
-        finally:
-            _REC["on"] = False
+    def run_request(self, h, cfg, tftp, uri, via_server=False, wire=None):
+        fileh.set_log_level(cfg.get("loglevel", "DEBUG"))
+        if via_server:
+            # the request travels through the real HttpServer / TftpServer (raw request target on the wire)
+            _REC["paths"] = []
+            _REC["on"] = True
+            try:
+                _seen, _ctx, can, cls, body = fileh.via_server(h, tftp, wire if wire is not None else uri)
+            finally:
+                _REC["on"] = False
+            if not can:
+                opened = [p for p in _REC["paths"] if not p.startswith(_PY_DIRS)]
+                return [True, False, opened, cls if cls != fileh.DECLINED else 4, b""]
+        else:
+            ctx = h.prepare_context(uri)
+            can = bool(h.can_handle(uri, ctx))
+            if not can:
+                return [True, False, [], 4, b""]
+            _REC["paths"] = []
+            _REC["on"] = True
+            try:
+                cls, body = fileh.run_handle(h, tftp, uri, ctx)
+            finally:
+                _REC["on"] = False
         opened = [p for p in _REC["paths"] if not p.startswith(_PY_DIRS)]
         if cfg.get("target_raw") is not None:
             # configured relative / non-normalised: compare what the opened names denote
@@ -481,7 +566,9 @@ class C04(Check):
         for p in paths:
             if injected is not None and os.path.abspath(p) == injected[0]:
                 k = injected[1]
-                if k == "EACCES":
+                if k == "content":
+                    rows.append([sxstr(p), KIND["file"], injected[2]])
+                elif k == "EACCES":
                     rows.append([sxstr(p), KIND["EACCES_DIR"] if os.path.isdir(p) else KIND["EACCES"], b""])
                 else:
                     rows.append([sxstr(p), KIND["OTHER"], b""])
@@ -555,9 +642,17 @@ class C04(Check):
         top = os.path.join(fileh.base_dir(), "hroot")
         shutil.rmtree(top, ignore_errors=True)
         frel = "hroot/" + hfile
-        fabs = os.path.join(fileh.base_dir(), frel)
+        fabs = os.path.join(fileh.base_dir(), ("hlink/" if c.get("link") else "hroot/") + hfile)
         self.set_state(frel, HIST_CONTENT["W0"])
         self.set_state("hroot/g.txt", "gee\n")
+        if c.get("link"):
+            # root_dir is a symbolic link that op L re-points to a second tree during the handler's life
+            for rel, content in (("hroot2/" + hfile, "the other tree\n"), ("hroot2/g.txt", "gee two\n")):
+                self.set_state(rel, content)
+            link = os.path.join(fileh.base_dir(), "hlink")
+            if os.path.lexists(link):
+                os.remove(link)
+            os.symlink("hroot", link)
         h = fileh.build(cfg, tftp, template_cache=c.get("cache", True))
         h.set_data_source(RecordingSource({}, []))
         steps = []
@@ -569,12 +664,18 @@ class C04(Check):
                     if pending is not None and op == "R":
                         # errno faults stand for errors of an object that exists; swaps need a regular file to start from
                         ok = os.path.lexists(fabs) if pending in ERRNO_FAULTS else os.path.isfile(fabs)
+                        before = None
                         if ok:
                             _FAULT["armed"] = {"path": fabs, "kind": pending}
                             _FAULT["fired"] = False
                             if pending in ERRNO_FAULTS:
                                 injected = (fabs, pending)     # the plan: open(fabs) answers this errno
+                            elif pending.startswith("race_"):
+                                with _builtin_open(fabs, "rb") as f0:
+                                    before = f0.read()
                     o = self.run_request(h, cfg, tftp, uris[op])
+                    if pending is not None and pending.startswith("race_") and _FAULT["fired"]:
+                        injected = (fabs, "content", before)   # open() succeeded before the change: it yields the old file
                     _FAULT["armed"] = None
                     _FAULT["fired"] = False
                     pending = None
@@ -582,6 +683,11 @@ class C04(Check):
                     steps.append((subs[op], o, self.probe_table(wanted[op], o, injected)))
                 elif op.startswith("X:"):
                     pending = op[2:]
+                elif op == "L":
+                    link = os.path.join(fileh.base_dir(), "hlink")
+                    now = os.readlink(link)
+                    os.symlink("hroot2" if now == "hroot" else "hroot", link + ".new")
+                    os.replace(link + ".new", link)
                 elif op == "A":
                     self.set_state(frel, None)
                 elif op == "D":
@@ -609,9 +715,22 @@ class C04(Check):
                               "file; D = replace it by a directory; W1/W2 = rewrite it; X:<k> = the next R's open() of the "
                               "file fails with errno k (EACCES/EIO/ELOOP) or, at that moment, the file becomes a "
                               "directory (swapdir) / its parent becomes a regular file (swapparent)"}
-        return {"tftp": c["tftp"], "cfg": c["cfg"], "uri": c["uri"], "uri_hex": c["uri"].encode("latin-1").hex()}
+        d = {"tftp": c["tftp"], "cfg": c["cfg"], "uri": c["uri"], "uri_hex": c["uri"].encode("latin-1").hex()}
+        if c.get("via_server"):
+            d["via_server"] = "the request travels through the real HttpServer / TftpServer in front of the handler"
+            d["wire"] = c.get("wire")
+        return d
 
     def shrink(self, c):
+        if c.get("via_server"):
+            # shrink what goes over the wire; the handler-level string follows from it
+            for cand in self._shrink(dict(c, uri=c["wire"])):
+                if fileh.servable(cand["tftp"], cand["uri"]):
+                    yield dict(cand, wire=cand["uri"], uri=fileh.wire_to_handler(cand["tftp"], cand["uri"]))
+            return
+        yield from self._shrink(c)
+
+    def _shrink(self, c):
         if "hist" in c:
             for i in range(len(c["hist"])):
                 yield dict(c, hist=c["hist"][:i] + c["hist"][i + 1:])
